@@ -34,6 +34,8 @@ type Printer struct {
 	// following long string would concatenate with it.
 	afterLong bool
 	inSpace   bool
+	// lastTopEnd: end of the last top-level value printed by Top (-1: none / something else followed)
+	lastTopEnd int
 	// SIDOneIn: a symbol whose text the current table defines is spelled $n with
 	// probability 1/SIDOneIn (default 5).
 	SIDOneIn int
@@ -46,6 +48,7 @@ type Printer struct {
 func (p *Printer) Begin() {
 	p.b = p.b[:0]
 	p.tab = refbin.NewSystemTab()
+	p.lastTopEnd = -1
 }
 
 // SetTable tells the printer which symbol table is in force from here on.
@@ -54,12 +57,41 @@ func (p *Printer) SetTable(t *refbin.SymTab) { p.tab = t }
 // Top prints one top-level value followed by separating whitespace.
 func (p *Printer) Top(v model.Value) {
 	p.space(false)
+	start := len(p.b)
 	p.value(v, ctxTop)
+	if p.lastTopEnd > 0 {
+		start = p.abut(p.lastTopEnd, start)
+	}
+	p.lastTopEnd = len(p.b)
 	p.space(true)
+}
+
+// abut removes the whitespace b[wsStart:next] between two values where the
+// grammar needs none: the second starts with an opening bracket or a double
+// quote, or the first ends with a closing bracket or a double quote (numbers,
+// timestamps and keywords end at any of those stop characters). Returns the new
+// start of the second value.
+func (p *Printer) abut(wsStart, next int) int {
+	if wsStart <= 0 || next <= wsStart || next >= len(p.b) {
+		return next
+	}
+	a, z := p.b[wsStart-1], p.b[next]
+	if a == '\'' || z == '\'' || z == '/' {
+		return next
+	}
+	if !(strings.IndexByte("([{\"", z) >= 0 || strings.IndexByte(")]}\"", a) >= 0) {
+		return next
+	}
+	if !p.rarely("ws.none-between-values", 3) {
+		return next
+	}
+	p.b = append(p.b[:wsStart], p.b[next:]...)
+	return wsStart
 }
 
 // Raw writes s verbatim, followed by separating whitespace.
 func (p *Printer) Raw(s string) {
+	p.lastTopEnd = -1
 	p.space(false)
 	p.w(s)
 	p.space(true)
@@ -70,6 +102,7 @@ func (p *Printer) Bytes() []byte { return append([]byte{}, p.b...) }
 
 // LST prints a local symbol table struct.
 func (p *Printer) LST(imports []refbin.Import, symbols []refbin.Slot, appendMode bool, extra bool) {
+	p.lastTopEnd = -1
 	p.space(false)
 	p.w([]string{"$ion_symbol_table", "$ion_symbol_table", "'$ion_symbol_table'", "$3"}[p.C.Intn(4)])
 	p.space(false)
@@ -291,13 +324,19 @@ func (p *Printer) Doc(vals []model.Value) []byte {
 			p.tab, _ = refbin.BuildLocal(nil, locals, nil)
 		}
 	}
+	prevEnd := -1
 	for i, v := range vals {
 		if i > 0 {
 			p.space(true)
 		} else {
 			p.space(false)
 		}
+		start := len(p.b)
 		p.value(v, ctxTop)
+		if i > 0 {
+			p.abut(prevEnd, start)
+		}
+		prevEnd = len(p.b)
 	}
 	switch p.choose("eof.trailing", 4) {
 	case 1:
@@ -375,9 +414,15 @@ func (p *Printer) value(v model.Value, c ctx) {
 		p.w("]")
 	case model.Sexp:
 		p.w("(")
+		prevEnd := -1
 		for i, e := range v.Elems {
 			p.space(i > 0)
+			start := len(p.b)
 			p.value(e, ctxSexp)
+			if i > 0 {
+				p.abut(prevEnd, start)
+			}
+			prevEnd = len(p.b)
 		}
 		// an operator symbol directly before ')' is fine; keep optional space
 		p.space(false)
